@@ -65,6 +65,18 @@ theorem clamps_as_documented :
     difficultyClamps = [("clock_rate", "0.01", "100.0"), ("ar", "-20.0", "20.0"), ("cs", "-20.0", "20.0"),
       ("hp", "-20.0", "20.0"), ("od", "-20.0", "20.0")] := by decide
 
+/-- `InspectDifficulty::into_difficulty` replays every setter (so every number is clamped again),
+exactly as `Inspect.intoDifficulty` in the model does. -/
+theorem into_difficulty_replays_setters :
+    intoDifficultyCalls = ["new.mods(mods)", "passed_objects(passed_objects)", "clock_rate(clock_rate)",
+      "ar(ar.value, ar.with_mods)", "cs(cs.value, cs.with_mods)", "hp(hp.value, hp.with_mods)",
+      "od(od.value, od.with_mods)", "hardrock_offsets(hardrock_offsets)", "lazer(lazer)"] := by decide
+
+/-- `Difficulty::inspect` copies every field (the clock rate is decoded from its bit pattern). -/
+theorem inspect_copies_fields :
+    inspectFields = ["mods", "passed_objects", "clock_rate: clock_rate.map(non_zero_u64_to_f64)", "ar", "cs",
+      "hp", "od", "hardrock_offsets", "lazer"] := by decide
+
 /-! ## Clamping -/
 
 theorem clamp_bounds (lo hi x : Int) (h : lo ≤ hi) : lo ≤ clamp lo hi x ∧ clamp lo hi x ≤ hi := by
